@@ -85,6 +85,9 @@ func ArrProps(propContainer map[string]object.PanObject) map[string]object.PanOb
 						fmt.Sprintf("%s cannot be treated as int", args[0].Repr()))
 				}
 
+				if err := verifAlloc(int64(len(selfElems)), other.Value); err != nil {
+					return err
+				}
 				// NOTE: no need to copy each elem because they are immutable
 				elems := []object.PanObject{}
 				for i := int64(0); i < other.Value; i++ {
